@@ -11,5 +11,9 @@ HARNESSES = [
                'thorough': [{'defines': ['NBASE=3', 'NOPS=4'], 'bound': 'base tree 3 blocks x every history of 4 operations (<= 7 blocks)', 'timeout': 2400, 'jobs': 16},
                             {'defines': ['NBASE=3', 'NOPS=3'], 'bound': 'base 3 blocks x 3 operations', 'timeout': 400}]}},
 ]
+import importlib.util as _ilu
+_rp = _ilu.spec_from_file_location('realspec', os.path.join(os.path.dirname(os.path.abspath(__file__)), '..', 'real', 'spec.py'))
+_real = _ilu.module_from_spec(_rp); _rp.loader.exec_module(_real)
+HARNESSES += _real.HARNESSES
 EXPLANATION = 'The real BlockTree<BtcBlock>/BaseBlockTree code is executed symbolically over every bounded history; the invariants are asserted after each step.'
-ASSUMPTIONS = ['block hashes are preset small ids (no SHA-256); regtest parameters', 'AltBlockTree/VbkBlockTree-specific logic (acceptBlock/connectBlock, payload index) is not covered by this harness']
+ASSUMPTIONS = ['block hashes are preset small ids (no SHA-256); regtest parameters', 'h_real covers AltBlockTree acceptBlock/connectBlock and the ALT payload index on small scenarios; mempool activity and VTBs are not covered']
